@@ -5,6 +5,7 @@ import (
 	"go/constant"
 	"go/token"
 	"go/types"
+	"strings"
 
 	"golang.org/x/tools/go/ssa"
 
@@ -463,7 +464,29 @@ func checkC18(p *core.Program, r *core.Report) {
 			r.Fail(R3, key, p.Pos(m.Pos()), fmt.Sprintf("%s maps to ConnectionState %s, expected %s: the application cannot tell this stable outcome apart", k, out[k], want[k]))
 		}
 	}
+	// Queued doubles as the hub's "connection wanted" marker (dial filters accept paired OR queued): apart from
+	// the state a connection starts in, no handshake state may map to it
+	{
+		key := "only the initial state maps to Queued"
+		q := named("ConnectionStateQueued")
+		var bad []string
+		for _, c := range consts {
+			if out[c.Name()] == q && c.Name() != "CmiStateInitStart" {
+				bad = append(bad, c.Name())
+			}
+		}
+		if len(bad) == 0 && q != "?" {
+			r.OK(R3, key, p.Pos(m.Pos()), "no later state stores the wanted marker")
+		} else {
+			r.Fail(R3, key, p.Pos(m.Pos()), fmt.Sprintf("%v map(s) to ConnectionStateQueued: the state-update callback stores it in the service record, and the dial filters treat a queued record like a registered one - the hub then dials a SKI nobody registered", bad))
+		}
+	}
 	_ = types.Typ
+	const R9 = "C18.R9 one-state-record-per-ski"
+	r.Rule(R9, "every access to the per-SKI service record uses the normalised SKI (shared with C15.R1): a lookup under another spelling creates a fresh record that replaces the stored pairing state, so PairingDetailForSki reports None after the last notification said otherwise - and no notification tells the application")
+	importRules(p, r, "C15", map[string]string{"C15.R1 normalise-before-use": R9}, func(key string) bool {
+		return strings.Contains(key, "remoteServices") || !strings.Contains(key, " -> ")
+	})
 }
 
 // isHubValue: v is (a pointer to) the Hub itself or one of its fields - hub-wide, not per-SKI state.
